@@ -7,6 +7,8 @@
 //!       relocation, whole-comb / chunk caches) after `compute_recurring_set`, as `veryl test` does,
 //!   (d) the same WITHOUT `compute_recurring_set` (the first-seer fallback of non-CLI callers),
 //! every order in its own child process (the reuse caches are process-global statics).
+//! A second suite family, `reads` (every third suite): tops with an IDENTICAL comb part whose
+//! `always_ff` blocks read different comb signals of it (see `gen_reads_suite`).
 //!
 //! Lines:
 //!   `suite <sseed> engine=<e> tops=<m> minbytes=<n>`          impl `ok` | `rejected …`
@@ -74,7 +76,71 @@ fn sig(p: &(usize, u64, usize)) -> String {
     format!("Core<{},{},{}>", p.0, p.1, p.2)
 }
 
+/// Suite family `reads` (seeds with the two low bits set): tops whose COMB part is identical
+/// (same declarations, same `let`s, same assigns, hence the same layout and the same comb-pipeline
+/// fingerprint) while their `always_ff` blocks READ different comb signals of it — a `let` nobody
+/// reads is dropped by dead-variable DCE, so a comb pipeline (with its dead set) cached for one top
+/// must not serve another.  Variants: reads c1 only / c2 only / both / neither.
+pub fn gen_reads_suite(sseed: u64, cycles: usize) -> Suite {
+    let mut r = Rng::new(sseed ^ 0x5245_4144);
+    const EXPRS: &[&str] = &["a + b", "a ^ (b << 1)", "(a & b) + 32'd1", "a - b", "(~a) | b", "(a >> 2) ^ b", "(a << 3) + b", "a * 32'd3 + b"];
+    let e1 = *r.pick(EXPRS);
+    let e2 = loop {
+        let e = *r.pick(EXPRS);
+        if e != e1 {
+            break e;
+        }
+    };
+    let e3 = *r.pick(EXPRS);
+    let comb = format!(
+        "    let c1: logic<32> = {e1};\n    let c2: logic<32> = {e2};\n    let c3: logic<32> = {e3};\n    var q: logic<32>;\n    var s: logic<32>;\n    assign y = q;\n    assign z = c3 ^ s;\n"
+    );
+    // (what q accumulates, what s accumulates)
+    // the two single-reader variants are the point of the family; 1–2 of the others join them
+    // (a `let` read by exactly ONE always_ff is hoisted into it by comb_to_ff_hoist, which changes the
+    // comb list; read by both always_ff blocks it stays in the comb part — hence q and s live in two
+    // blocks and the single-signal variants read their signal in both)
+    let mut others: Vec<(&str, &str)> = vec![("c1", "c2"), ("a", "b"), ("c1 ^ c2", "c2 + c1"), ("c2", "c1")];
+    for i in (1..others.len()).rev() {
+        others.swap(i, r.below(i as u64 + 1) as usize);
+    }
+    others.truncate(1 + r.below(2) as usize);
+    let mut variants: Vec<(&str, &str)> = vec![("c1", "c1"), ("c2", "c2")];
+    variants.extend(others);
+    for i in (1..variants.len()).rev() {
+        variants.swap(i, r.below(i as u64 + 1) as usize);
+    }
+    let mut code = String::new();
+    let mut tops = vec![];
+    // one stimulus for all tops
+    let mut ops = String::from("nrg");
+    let mut stim = vec![];
+    for _ in 0..cycles {
+        ops.push_str("sc");
+        if r.below(5) != 0 {
+            ops.push('g');
+        }
+        stim.push((r.next() & 0xffff_ffff, r.next() & 0xffff_ffff));
+    }
+    ops.push('g');
+    for (i, (rq, rs)) in variants.iter().enumerate() {
+        let name = format!("T{i}");
+        code.push_str(&format!(
+            "module {name} (\n    clk: input clock,\n    rst: input reset,\n    a: input logic<32>,\n    b: input logic<32>,\n    y: output logic<32>,\n    z: output logic<32>,\n) {{\n{comb}    always_ff {{\n        if_reset {{\n            q = 0;\n        }} else {{\n            q = q + {rq};\n        }}\n    }}\n    always_ff {{\n        if_reset {{\n            s = 0;\n        }} else {{\n            s = s ^ ({rs});\n        }}\n    }}\n}}\n"
+        ));
+        tops.push(Top { name, outs: vec!["y".to_string(), "z".to_string()], insts: vec![], units: vec![], ops: ops.clone(), stim: stim.clone() });
+    }
+    Suite { code, tops, twin: None }
+}
+
+pub fn is_reads_family(sseed: u64) -> bool {
+    sseed & 3 == 3
+}
+
 pub fn gen_suite(sseed: u64, cycles: usize) -> Suite {
+    if is_reads_family(sseed) {
+        return gen_reads_suite(sseed, cycles);
+    }
     let mut r = Rng::new(sseed ^ 0x5245_5553);
     let mut code = core_module(&mut r);
     // two parameter sets so that components recur across tops (and differ)
@@ -535,6 +601,7 @@ fn run_suite(exe: &std::path::Path, sseed: u64, cycles: usize, par: usize, cache
     }
     log.push3(format!("suite {sseed:x} engine={engine} tops={m} minbytes={minbytes}"), "ok".into(), "?".into());
     log.count("suites");
+    log.count(if is_reads_family(sseed) { "family.reads" } else { "family.core" });
     log.count(&format!("engine.{engine}"));
     log.count(&format!("minbytes.{minbytes}"));
     log.count(&format!("tops.{m}"));
@@ -631,7 +698,11 @@ fn run_suite(exe: &std::path::Path, sseed: u64, cycles: usize, par: usize, cache
                 }
             }
             let imp = if seen.len() <= 1 { "same" } else { "differs" };
-            log.push3(format!("layout {sseed:x} mode={md} top={ti}"), imp.into(), if md == "reusefs" { "?".into() } else { "same".into() });
+            // `reads` family under dut_reuse: two tops with the same comb part AND the same event census
+            // legitimately share one cached comb pipeline, whose relayout order was fixed by whichever
+            // came first — the layout may differ by order there (traces may not): evidence only
+            let strict = md != "reusefs" && !(is_reads_family(sseed) && md == "reuse");
+            log.push3(format!("layout {sseed:x} mode={md} top={ti}"), imp.into(), if strict { "same".into() } else { "?".into() });
             log.count(&format!("layout.{md}.{imp}"));
         }
     }
@@ -681,7 +752,8 @@ pub fn main(opts: &Opts) -> i32 {
                 log.count("stopped_early_on_time_budget");
                 break;
             }
-            let s = r.next() >> 16;
+            // every third suite (the first one included) is of the `reads` family (low bits 11)
+            let s = if i % 3 == 0 { (r.next() >> 16) | 3 } else { (r.next() >> 16) & !1 };
             run_suite(&exe, s, cycles, par, &cache, thorough, &mut log);
         }
     }
